@@ -23,7 +23,7 @@ def check_setter(body, field, rep_add):
         rep_add("R38a", "setter has one value parameter", False, "arg_count=%d" % m.arg_count)
         return 0
     param = 2
-    ana = SubjectAnalysis(m, lambda o: o.kind == "param" and o.obj == param and not o.path)
+    ana = SubjectAnalysis(m, lambda e: e == ("param", param, ()), body=body)
     want = ISet([(LO, HI)])
     stores = 0
     for bb, i, s in m.stmts():
